@@ -28,9 +28,23 @@ THE SOFTWARE.
 """
 
 
+class _LeftNestedPowerMixin:
+    """``**`` associates to the right in Python and Fortran, so a power whose
+    base is a power must have that base parenthesized: (a**b)**c.
+    """
+
+    def map_power(self, expr, enclosing_prec, *args, **kwargs):
+        from pymbolic.mapper.stringifier import PREC_CALL, PREC_POWER
+        return self.parenthesize_if_needed(
+                self.format("%s**%s",
+                    self.rec(expr.base, PREC_CALL, *args, **kwargs),
+                    self.rec(expr.exponent, PREC_POWER, *args, **kwargs)),
+                enclosing_prec, PREC_POWER)
+
+
 # {{{ fortran
 
-class FortranExpressionMapper(StringifyMapper):
+class FortranExpressionMapper(_LeftNestedPowerMixin, StringifyMapper):
     """Converts expressions to Fortran code."""
 
     def __init__(self, name_manager):
@@ -132,7 +146,7 @@ class FortranExpressionMapper(StringifyMapper):
 
 # {{{ python
 
-class PythonExpressionMapper(StringifyMapper):
+class PythonExpressionMapper(_LeftNestedPowerMixin, StringifyMapper):
     """Converts expressions to Python code."""
 
     def __init__(self, name_manager, function_registry,
